@@ -56,6 +56,26 @@ def model_for(mb: ModelBuilder, writer: str) -> AObj:
     return _non_ascii(m)
 
 
+def corner_model(mb: ModelBuilder, writer: str) -> Any:
+    names = {"JSONWriter": ["tab\there", "cr\rhere", "line\nbreak"], "GlencoeWriter": ["tab\there", "cr\rhere", "line\nbreak"],
+             "FeatureIDEWriter": ["tab\there", "cr\rhere", "line\nbreak"], "UVLWriter": ["tab\there"]}.get(writer, [])
+    with_attrs = writer in ("UVLWriter", "JSONWriter", "ClaferWriter")
+    if not names and not with_attrs:
+        return None
+    root = mb.feature("Root")
+    plain = mb.feature("Plain")
+    mb.relation(root, [plain], 0, 1)
+    ctcs = []
+    for i, nm in enumerate(names):
+        f = mb.feature(nm)
+        mb.relation(root, [f], 0, 1)
+        ctcs.append(mb.constraint(f"c{i}", mb.node(mb.op("IMPLIES"), mb.node(nm), mb.node("Plain"))))
+    if with_attrs:
+        for an, av in (("flag", None), ("size", 6.0), ("code", "10"), ("on", True)):
+            plain._f["attributes"].append(mb.attribute(an, av, plain))
+    return mb.model(root, ctcs)
+
+
 def _non_ascii(m: AObj) -> AObj:
     """Rename two features (and their occurrences in constraints) to non-ASCII names: the value returned,
     the bytes written and the bytes read back must agree on them."""
@@ -207,6 +227,31 @@ def check(pm: ProgramModel, ctx: Ctx) -> None:
             ctx.check(a2["returned"] == a["returned"], "C12-REPEAT", f"repeat:{ci.name}", where,
                       "a repeated call gives byte-identical output",
                       bad=f"{ci.name}: a second call on the same model gives different output")
+            # corner model: names carrying a tab / carriage return / line break inside a constraint (where the format
+            # can carry them) and attributes without value, with a None, integral-float and numeric-looking value
+            # (where the format carries attributes): same obligations on it
+            cm = corner_model(mb, ci.name)
+            if cm is not None:
+                cbefore = snapshot(cm)
+                freeze_model(cm)
+                c1 = run(pm, ci, cm, "asc")
+                if c1["mutation"]:
+                    ctx.violation("C12-PURE", f"pure:{ci.name}:corner-model", c1["mutation"][1] or where,
+                                  f"{ci.name}.transform modifies the model it serialises: {c1['mutation'][0]}")
+                elif c1["raise"]:
+                    ctx.violation("C12-TOTAL", f"raises:{ci.name}:corner-model", c1["raise"][1] or where,
+                                  f"{ci.name}.transform raises on a well-formed model (control characters in names, value-less "
+                                  f"attributes): {c1['raise'][0]}")
+                else:
+                    c2 = run(pm, ci, cm, "asc")
+                    okc = snapshot(cm) == cbefore and c1["returned"] == c1["written"] and c1["written"] is not None \
+                        and c2["returned"] == c1["returned"]
+                    ctx.check(okc, "C12-RETURN", f"corner-model:{ci.name}", where,
+                              "on the corner model too: model unchanged, returned = written, repeated call identical",
+                              bad=f"{ci.name} on a model with control characters in names / value-less attributes: "
+                                  f"model unchanged={snapshot(cm) == cbefore}, returned=written={c1['returned'] == c1['written']}, "
+                                  f"repeat identical={c2['returned'] == c1['returned']} "
+                                  f"({_first_diff(c1['returned'], c1['written']) if c1['returned'] != c1['written'] else _first_diff(c1['returned'], c2['returned'])})")
         # read-back side: the streams the readers open
         readers_encoding(pm, ctx, mb)
     ctx.floor("C12", "obligations", len(ctx.obligations), 40)
